@@ -17,7 +17,7 @@ var mixC03 = Mix{Set: 30, Delete: 8, GetItem: 2, Flush: 10, Evict: 2, Reopen: 2,
 func init() {
 	register(&Prop{
 		ID: "C03", Level: "fault_enumeration",
-		Rule: "case = one seeded history with 2-6 flushes over 1-3 collections whose names, keys and values are laden with the magic markers, doubled markers, plausible-but-inconsistent root trailers and byte-exact / truncated copies of earlier root records of the same file; one history in six runs under each of: chunked ItemValWrite/ItemValRead, a value codec whose on-disk length is twice len(Val), a BeforeItemWrite/AfterItemRead pair that writes a substitute item with a checksum trailer; some flushes fail on one of their writes (outright or torn) and are retried or not. From the StoreFile write log EVERY crash image is rebuilt: for every i (log entries 0..i-1 applied in issue order) and for the write in flight every byte length j in 0..len-1 (byte-granular). Each image is opened with NewStore and must show exactly the state of the last Flush all of whose writes are contained in the image (all collections together), or - if there is none - an empty store or the documented no-roots error; the open must respect the logical root-scan bound and not panic. A seed-chosen subset of images is additionally opened with junk tails appended (random bytes, zeros, doubled end marker alone, doubled end marker after a plausible but inconsistent (offset,length), a byte-exact copy of an older root record, a proper prefix of the next root record, and crafted envelopes whose framing is right for their position but whose body is not one JSON map (trailing garbage, two objects, truncated object, wrong version, first length field off by one); tails that the independent decoder recognises as a complete self-consistent root record are discarded), and on a subset the recovered store performs 3 mutations, a Flush and is re-opened again. evaluations counts images opened. Non-trivial = image lies strictly inside a Flush (between its first and last byte) or carries a junk tail; distinct = distinct (history, i, j, tail).",
+		Rule: "case = one seeded history with 2-6 flushes over 1-3 collections whose names, keys and values are laden with the magic markers, doubled markers, plausible-but-inconsistent root trailers and byte-exact / truncated copies of earlier root records of the same file; one history in six runs under each of: chunked ItemValWrite/ItemValRead, a value codec whose on-disk length is twice len(Val), a BeforeItemWrite/AfterItemRead pair that writes a substitute item with a checksum trailer; in a third of the histories the BeforeItemWrite callback re-sets an existing item of another collection to the value it already has, so that this collection gets a new unwritten version between the pin and the write phase of every Flush; some flushes fail on one of their writes (outright or torn) and are retried or not. From the StoreFile write log EVERY crash image is rebuilt: for every i (log entries 0..i-1 applied in issue order) and for the write in flight every byte length j in 0..len-1 (byte-granular). Each image is opened with NewStore and must show exactly the state of the last Flush all of whose writes are contained in the image (all collections together), or - if there is none - an empty store or the documented no-roots error; the open must respect the logical root-scan bound and not panic. A seed-chosen subset of images is additionally opened with junk tails appended (random bytes, zeros, doubled end marker alone, doubled end marker after a plausible but inconsistent (offset,length), a byte-exact copy of an older root record, a proper prefix of the next root record, and crafted envelopes whose framing is right for their position but whose body is not one JSON map (trailing garbage, two objects, truncated object, wrong version, first length field off by one); tails that the independent decoder recognises as a complete self-consistent root record are discarded), and on a subset the recovered store performs 3 mutations, a Flush and is re-opened again. evaluations counts images opened. Non-trivial = image lies strictly inside a Flush (between its first and last byte) or carries a junk tail; distinct = distinct (history, i, j, tail).",
 		Assumptions: []string{
 			"writes reach the file in issue order and a crash leaves a byte prefix of the write in flight (the property's own crash model); no reordering",
 			"junk that is itself a complete, self-consistent root record is excluded, as the property states",
@@ -25,7 +25,7 @@ func init() {
 		NumCases: func(tier string) int { return pick(tier, 48, 1500) },
 		Run:      runC03,
 		Floor: func(tier string, st map[string]int64) string {
-			for _, k := range []string{"c03.images", "c03.images-mid-flush", "c03.images-mid-root-record", "c03.junk-tails", "c03.recovered-and-continued", "c03.no-flush-yet-images", "rootscan.iters", "c03.item-substituting-codec-cases", "c03.failed-writes-in-log"} {
+			for _, k := range []string{"c03.images", "c03.images-mid-flush", "c03.images-mid-root-record", "c03.junk-tails", "c03.recovered-and-continued", "c03.no-flush-yet-images", "rootscan.iters", "c03.item-substituting-codec-cases", "c03.failed-writes-in-log", "other-collection-touched-during-flush"} {
 				if st[k] == 0 {
 					return "no " + k + " observed"
 				}
@@ -57,8 +57,12 @@ func runC03(ctx *Ctx, idx int) Result {
 		ctx.Stats["c03.item-substituting-codec-cases"]++
 	case 5:
 		cfg.CB = driver.CBValDouble
+	case 2, 4:
+		// another collection gets a new (content-identical) version in the middle of every Flush
+		cfg.CB = driver.CBTouchOther
+		ctx.Stats["c03.touch-other-collection-cases"]++
 	}
-	hc := HistCfg{Steps: r.Range(15, 40), NColls: r.Range(1, 3), NKeys: r.Range(3, 8),
+	hc := HistCfg{Steps: r.Range(15, 40), NColls: r.Range(1, 3) + btoi(cfg.CB&driver.CBTouchOther != 0), NKeys: r.Range(3, 8),
 		KeyClass: []gen.KeyClass{gen.KeysMagic, gen.KeysShort, gen.KeysPrefix, gen.KeysMagic, gen.KeysShort, gen.KeysPrefix, gen.KeysLong}[r.Intn(7)], ValClass: gen.ValsMagic,
 		Prio: gen.PrioRegime(r.Intn(int(gen.NumPrioRegimes))), Mix: mixC03, Exotic: true}
 	h := NewHist(r, cfg, hc, fmt.Sprintf("c03-%d", idx))
@@ -233,7 +237,7 @@ func decoderLooksLikeRoot(p []byte) bool {
 
 // c03Check opens the image and compares with the expected durable state.
 func c03Check(parent *driver.Env, img []byte, ev c03Event, cont bool) *driver.Violation {
-	codec := parent.Cfg.CB & (driver.CBVal | driver.CBSwap | driver.CBValDouble)
+	codec := parent.Cfg.CB & (driver.CBVal | driver.CBSwap | driver.CBValDouble | driver.CBTouchOther)
 	probe := driver.NewEnvCmps("probe", driver.Config{ScanBound: true, MemOnly: true, CB: codec}, parent.Cmps)
 	probe.Cfg.MemOnly = false
 	if ev.any {
